@@ -221,6 +221,15 @@ def seeded_entries():
         est.fit(X, y)
         return [list(est.X_factors), list(est.Y_factors), est.coef_, est.predict(X)]
 
+    # the estimator parameter protocol: a copy made from get_params() / configured by set_params() is seeded like the original
+    add("CPRegressor", "copy-from-get_params", 2.0,
+        lambda off: (lambda rs, Xy=_reg(off): reg_out(CPRegressor(**CPRegressor(weight_rank=2, n_iter_max=3, random_state=rs, verbose=0).get_params()), *Xy)))
+    add("TuckerRegressor", "copy-from-get_params", 3.0,
+        lambda off: (lambda rs, Xy=_reg(off): reg_out(TuckerRegressor(**TuckerRegressor(weight_ranks=[2, 2], n_iter_max=3, random_state=rs, verbose=0).get_params()), *Xy)))
+    add("TuckerRegressor", "configured-by-set_params", 3.0,
+        lambda off: (lambda rs, Xy=_reg(off): reg_out(TuckerRegressor(weight_ranks=[2, 2], n_iter_max=3, verbose=0).set_params(random_state=rs), *Xy)))
+    add("CPRegressor", "configured-by-set_params", 2.0,
+        lambda off: (lambda rs, Xy=_reg(off): reg_out(CPRegressor(weight_rank=2, n_iter_max=3, verbose=0).set_params(random_state=rs), *Xy)))
     add("CP_PLSR", "default", 3.0,
         lambda off: (lambda rs, Xy=_reg(off): plsr_out(CP_PLSR(n_components=2, n_iter_max=5, random_state=rs), Xy[0], Xy[1])))
 
